@@ -221,8 +221,14 @@ def evaluate__concat(self: XPathFunction, context: ta.ContextType = None) -> str
     if self.context is not None:
         context = self.context
 
+    if self.parser.version == '1.0':
+        return ''.join(
+            self.string_value(self.get_argument(context, index=k)) for k in range(len(self))
+        )
+    # the arguments are atomized: the typed value of a schema-typed node is cast to xs:string
     return ''.join(
-        self.string_value(self.get_argument(context, index=k)) for k in range(len(self))
+        self.string_value(self.data_value(self.get_argument(context, index=k)))
+        for k in range(len(self))
     )
 
 
